@@ -4,6 +4,7 @@ import PasskeyVerif.Driver.Hid
 import PasskeyVerif.Driver.Psl
 import PasskeyVerif.Driver.RpId
 import PasskeyVerif.Driver.AuthData
+import PasskeyVerif.Driver.Ctap
 open PasskeyVerif
 
 structure DriverState where
@@ -23,6 +24,7 @@ def stepLine (st : DriverState) (line : String) : DriverState × String :=
     else if tok.startsWith "psl." then (st, Driver.Psl.step op impl)
     else if tok.startsWith "rp." then (st, Driver.RpId.step op impl)
     else if tok.startsWith "ad." then (st, Driver.AuthData.step op impl)
+    else if tok.startsWith "st." || tok.startsWith "ctap." then (st, Driver.Ctap.step op impl)
     else (st, "bad-op\tna")
   | [] => (st, "bad-op\tna")
 
